@@ -5,6 +5,8 @@ Decided clauses (see DESIGN.md section 3, C09):
       (and hence with what the generic path computes) in every encoding.
   D2  acquire/release balance: in the CHECK_ACQUIRE_RELEASE build no sequence
       of public calls from one thread can reach the checker's abort().
+  D3  the back-end specific block primitives are alias-safe in the same way
+      (input == output), a necessary condition for identical results.
 Undecided: byte-identical results of arbitrary workloads across builds.
 """
 from . import facts, ir, repo, typestate
@@ -56,6 +58,7 @@ def run(rep, tier):
     ]
     rule_d2(rep, tier)
     tables.rule_tables(rep, tier, "C09.D1", families=("xof", "xofa", "hash", "hasha", "kmac", "kmaca"))
+    rule_d3(rep, tier)
 
 
 def rule_d2(rep, tier):
@@ -137,3 +140,22 @@ def rule_d2(rep, tier):
 
 def _cpp_units(build):
     return tuple(u.rel for u in build.group("lib", ("c++",)))
+
+
+def rule_d3(rep, tier):
+    """D3: the back-end specific encrypt/decrypt/extract primitives obey the
+    load-before-store discipline that makes identical input and output buffers
+    (documented as allowed) behave the same in every back end."""
+    from . import rules_c07
+    rid = "C09.D3"
+    rep.rule(rid, "per-back-end block primitives read each input byte before storing the same-position output byte")
+    cfgs = [repo.Config(b) for b in repo.BACKENDS]
+    if tier == "thorough":
+        cfgs += [repo.Config(b, 4, 1, 4) for b in ("c64", "c32", "direct")]
+    builds = repo.configure_many(cfgs)
+    for b in builds:
+        lr = repo.lower(b, group="lib", level="O0", langs=("c",))
+        m = ir.Module.load(lr.json)
+        if b.cfg.name not in rep.configs:
+            rep.configs.append(b.cfg.name)
+        rules_c07.rule_inplace(rep, m, b.cfg.name, b, rid)
